@@ -73,6 +73,10 @@ def _enclosing_lists(ctx, rep, cl):
     # and the backslash stays inside the value
     shadow = [(T[i], T[j]) for i in range(len(T)) for j in range(i + 1, len(T)) if T[j] != T[i] and T[j].endswith(T[i])]
     shadow += [(H[i], H[j]) for i in range(len(H)) for j in range(i + 1, len(H)) if H[j] != H[i] and H[j].startswith(H[i])]
+    # an enclosing text is punctuation: letters or digits kept "around" a secret are part of the secret (0x<key>, a quote-like word) and would survive
+    wordy = sorted({x for x in H + T if any(ch.isalnum() for ch in x)})
+    rep.ob(cl + ".enclosing-texts-punctuation", f.name, not wordy, "enclosing texts containing letters or digits: %s; what is stripped in front of / behind a value is copied to the output unchanged" % wordy, W(f),
+           key=cl + ".enclosing-texts-punctuation|_extract_enclosing_text")
     rep.ob(cl + ".enclosing-longest-first", f.name, not shadow, "enclosing texts tried before a longer text that contains them at the stripping end: %s (e.g. the escaped quote must be tried before the plain quote)" % shadow, W(f),
            key=cl + ".enclosing-longest-first|_extract_enclosing_text")
     inp = ("param", f.mparams[0])
@@ -207,6 +211,9 @@ def c08(ctx, rep):
     _one_lookup_per_run(ctx, rep, "C08")
     _enclosing_lists(ctx, rep, "C08")
     secret_rmi.check_rmi(ctx, rep, "C08")
+    _pfx8, _grps8, _parts8 = secret_struct.check_table(ctx, rep, "C08", want_catchalls=False)
+    from . import refpatterns as _rp
+    _rp.check(ctx, rep, "C08", _pfx8, _grps8, _parts8)  # a widened replaced span keys the same secret differently depending on what follows it
     # "a $9$ string and any other spelling of the same plaintext are the same secret" rests on the decoder: C18's decoder clauses re-run
     from .report import Report
     from .checks_misc import c18
@@ -214,7 +221,7 @@ def c08(ctx, rep):
     c18(ctx, sub, with_k3=False)
     for o in sub.obligations:
         cn = o["clause"].split(".", 1)[1]
-        if cn in ("decode-prelude", "decode-row", "decode-chain", "valid-alphabet", "valid-min-length", "validated-before-tables", "refusal", "gap", "gap-decode-value", "gap-decode-guard", "alphabet-distinct", "alpha-num-inverse", "extra-total", "weights-mixed-radix", "weights-cover-bytes", "encode-greedy", "encode-ring", "encode-row", "encode-chain", "encode-prefix", "encode-all-chars"):
+        if cn in ("decode-prelude", "decode-row", "decode-chain", "valid-alphabet", "valid-min-length", "validated-before-tables", "refusal", "gap", "gap-decode-value", "gap-decode-guard", "alphabet-distinct", "alpha-num-inverse", "extra-total", "weights-mixed-radix", "weights-cover-bytes", "encode-greedy", "encode-ring", "encode-row", "encode-chain", "encode-prefix", "encode-all-chars", "decode-result"):
             rep.ob("C08.codec." + cn, o["construct"], o["ok"], o["detail"], o["where"], o.get("witness"), key="C08.codec.%s|%s" % (cn, o["construct"]))
 
 
